@@ -14,11 +14,14 @@ pub struct Ref<'a> {
     pub nodes: u64,
     pub cap: u64,
     pub capped: bool,
+    /// measuring aid only: capture extension cut after this many plies (u32::MAX = the reference itself)
+    pub qcap: u32,
+    pub max_qply: u32,
 }
 
 impl<'a> Ref<'a> {
     pub fn new(h: &'a ZobristHasher, cap: u64) -> Ref<'a> {
-        Ref { h, nodes: 0, cap, capped: false }
+        Ref { h, nodes: 0, cap, capped: false, qcap: u32::MAX, max_qply: 0 }
     }
 
     fn quiesce(&mut self, board: &BoardState) -> i32 {
@@ -87,8 +90,15 @@ impl<'a> Ref<'a> {
 }
 
 impl<'a> Ref<'a> {
-    fn quiesce_ab(&mut self, board: &BoardState, mut alpha: i32, beta: i32) -> i32 {
+    fn quiesce_ab(&mut self, board: &BoardState, alpha: i32, beta: i32) -> i32 {
+        self.quiesce_ab_at(board, alpha, beta, 0)
+    }
+
+    fn quiesce_ab_at(&mut self, board: &BoardState, mut alpha: i32, beta: i32, qply: u32) -> i32 {
         self.nodes += 1;
+        if qply > self.max_qply {
+            self.max_qply = qply;
+        }
         if self.nodes > self.cap {
             self.capped = true;
             return 0;
@@ -100,11 +110,14 @@ impl<'a> Ref<'a> {
         if best > alpha {
             alpha = best;
         }
+        if qply >= self.qcap {
+            return best;
+        }
         // ordering (captures of the most valuable piece first) changes the work, never the value
         let mut caps = generate_moves(board, MoveGenerationMode::CapturesOnly, self.h);
         caps.sort_by_key(|k| std::cmp::Reverse(k.order_heuristic));
         for m in caps {
-            let v = -self.quiesce_ab(&m, -beta, -alpha);
+            let v = -self.quiesce_ab_at(&m, -beta, -alpha, qply + 1);
             if self.capped {
                 return 0;
             }
